@@ -13,6 +13,7 @@ func runExtract(repo, outDir, factsFile string) {
 	writePipeline(repo, outDir, facts)
 	writeMilestones(repo, outDir, facts)
 	writeLevels(repo, outDir, facts)
+	writeOperators(repo, outDir, facts)
 	writeCliFacts(repo, outDir, facts)
 	writeInventories(repo, outDir, facts)
 	kw, bi, deny := engineTables()
